@@ -201,6 +201,19 @@ var binAliases = []string{"v|p|q", "v=p|q", "v=q|p", "p=q|v", "v=p=q"}
 
 // runBin: one binary transition under one alias pattern. Patterns 3,4 (p and q
 // the same object) only apply when both operands are the same state.
+// freshReceiver: a receiver distinct from every operand. Its previous contents are the receiver's HISTORY and must not
+// matter: a zero-value object (write-only use), a decoded point (Z = 1) or a computed one (Z != 1), chosen by a
+// stable hash of the case so that replays rebuild the same receiver.
+func freshReceiver(parts ...string) *Point {
+	switch mc.HS(parts...) % 3 {
+	case 1:
+		return lib.MkPT(ref.G())
+	case 2:
+		return lib.MkPTRep(ref.G().Mul(big.NewInt(5)), big.NewInt(0x1d))
+	}
+	return new(Point)
+}
+
 func runBin(op *binop, da, db string, al int) string {
 	if al >= 3 && da != db {
 		return ""
@@ -218,7 +231,7 @@ func runBin(op *binop, da, db string, al int) string {
 	case 2:
 		v = q
 	default:
-		v = new(Point) // zero value: write-only receiver
+		v = freshReceiver(op.name, da, db)
 	}
 	var ret *Point
 	if pn := lib.Try(func() { ret = op.f(v, p, q) }); pn != "" {
@@ -259,7 +272,7 @@ func runUn(op *unop, da string, aliased bool) string {
 	rawP := lib.Raw(p)
 	v := p
 	if !aliased {
-		v = new(Point)
+		v = freshReceiver(op.name, da, "")
 	}
 	var ret *Point
 	if pn := lib.Try(func() { ret = op.f(v, p) }); pn != "" {
